@@ -3,5 +3,6 @@ package main
 // One blank import per engine package; each registers its checks in init().
 import (
 	_ "verif/harness/placelab"
+	_ "verif/harness/procluster"
 	_ "verif/harness/smlab"
 )
